@@ -13,7 +13,18 @@ pub struct MyMsg {
 }
 impl svfw::cw_std::CustomMsg for MyMsg {}
 
+#[derive(serde::Serialize, serde::Deserialize, Clone, Debug, PartialEq, schemars::JsonSchema)]
+pub struct Echo {
+    pub handler: String,
+    pub args: Vec<String>,
+}
+
+fn js<T: serde::Serialize>(v: &T) -> String {
+    serde_json::to_string(v).unwrap_or_default()
+}
+
 pub mod iface {
+    use super::Echo;
     use svfw::ctx::{ExecCtx, QueryCtx};
     use svfw::cw_std::{Response, StdError};
 
@@ -23,8 +34,12 @@ pub mod iface {
         type Error: From<StdError>;
         #[sv::msg(exec)]
         fn poke(&self, ctx: ExecCtx, n: u32) -> Result<Response, Self::Error>;
+        #[sv::msg(exec)]
+        fn poke2(&self, ctx: ExecCtx, a: String, b: String) -> Result<Response, Self::Error>;
         #[sv::msg(query)]
-        fn peek(&self, ctx: QueryCtx) -> Result<u32, Self::Error>;
+        fn peek(&self, ctx: QueryCtx) -> Result<Echo, Self::Error>;
+        #[sv::msg(query)]
+        fn peek_at(&self, ctx: QueryCtx, idx: u32, tag: String) -> Result<Echo, Self::Error>;
     }
 }
 
@@ -45,30 +60,229 @@ pub mod iface_assoc {
 }
 
 pub mod contract {
+    use super::{js, Echo};
     use svfw::ctx::{ExecCtx, InstantiateCtx, QueryCtx};
-    use svfw::cw_std::{Response, StdResult};
+    use svfw::cw_std::{Response, StdError, StdResult};
 
     pub struct Ctr;
 
+    fn echo(handler: &str, args: Vec<String>, ctx: &ExecCtx) -> StdResult<Response> {
+        Ok(Response::new()
+            .add_attribute("handler", handler)
+            .add_attribute("args", js(&args))
+            .add_attribute("sender", ctx.info.sender.to_string())
+            .add_attribute("funds", js(&ctx.info.funds)))
+    }
+
+    #[svfw::entry_points]
     #[svfw::contract]
+    #[sv::messages(crate::iface as Plain)]
     impl Ctr {
         pub const fn new() -> Self {
             Self
         }
         #[sv::msg(instantiate)]
         pub fn instantiate(&self, _ctx: InstantiateCtx, start: u32, name: String) -> StdResult<Response> {
-            let _ = (start, name);
-            Ok(Response::new())
+            Ok(Response::new().add_attribute("handler", "instantiate").add_attribute("args", js(&vec![js(&start), js(&name)])))
         }
         #[sv::msg(exec)]
-        pub fn bump(&self, _ctx: ExecCtx, by: u32, memo: Option<String>) -> StdResult<Response> {
-            let _ = (by, memo);
-            Ok(Response::new())
+        pub fn bump(&self, ctx: ExecCtx, by: u32, memo: Option<String>) -> StdResult<Response> {
+            echo("bump", vec![js(&by), js(&memo)], &ctx)
+        }
+        #[sv::msg(exec)]
+        pub fn set_owner(&self, ctx: ExecCtx, owner: String) -> StdResult<Response> {
+            echo("set_owner", vec![js(&owner)], &ctx)
+        }
+        #[sv::msg(exec)]
+        pub fn foo1_bar(&self, ctx: ExecCtx, a: u64, b: u64) -> StdResult<Response> {
+            echo("foo1_bar", vec![js(&a), js(&b)], &ctx)
         }
         #[sv::msg(query)]
-        pub fn value(&self, _ctx: QueryCtx) -> StdResult<u32> {
-            Ok(0)
+        pub fn value(&self, _ctx: QueryCtx) -> StdResult<Echo> {
+            Ok(Echo { handler: "value".into(), args: vec![] })
         }
+        #[sv::msg(query)]
+        pub fn sum(&self, _ctx: QueryCtx, a: u32, b: u32) -> StdResult<Echo> {
+            Ok(Echo { handler: "sum".into(), args: vec![js(&a), js(&b)] })
+        }
+    }
+
+    impl super::iface::Plain for Ctr {
+        type Error = StdError;
+        fn poke(&self, ctx: ExecCtx, n: u32) -> StdResult<Response> {
+            echo("poke", vec![js(&n)], &ctx)
+        }
+        fn poke2(&self, ctx: ExecCtx, a: String, b: String) -> StdResult<Response> {
+            echo("poke2", vec![js(&a), js(&b)], &ctx)
+        }
+        fn peek(&self, _ctx: QueryCtx) -> StdResult<Echo> {
+            Ok(Echo { handler: "peek".into(), args: vec![] })
+        }
+        fn peek_at(&self, _ctx: QueryCtx, idx: u32, tag: String) -> StdResult<Echo> {
+            Ok(Echo { handler: "peek_at".into(), args: vec![js(&idx), js(&tag)] })
+        }
+    }
+}
+
+/// Sends the body of a built WasmMsg::Execute to the target's real `execute` entry point.
+fn deliver(msg: &svfw::cw_std::WasmMsg) -> Value {
+    use svfw::cw_std::testing::{message_info, mock_dependencies, mock_env};
+    match msg {
+        svfw::cw_std::WasmMsg::Execute { contract_addr, msg, funds } => {
+            let mut deps = mock_dependencies();
+            let info = message_info(&Addr::unchecked("caller"), funds);
+            let decoded = svfw::cw_std::from_json::<contract::sv::ContractExecMsg>(msg.as_slice());
+            match decoded {
+                Err(e) => json!({"contract_addr": contract_addr, "funds": funds, "body": String::from_utf8_lossy(msg.as_slice()), "decode_err": e.to_string()}),
+                Ok(m) => {
+                    let r = contract::entry_points::execute(deps.as_mut(), mock_env(), info, m);
+                    match r {
+                        Ok(resp) => {
+                            let attrs: serde_json::Map<String, Value> = resp.attributes.iter().map(|a| (a.key.clone(), Value::String(a.value.clone()))).collect();
+                            json!({"contract_addr": contract_addr, "funds": funds, "body": String::from_utf8_lossy(msg.as_slice()), "attrs": attrs})
+                        }
+                        Err(e) => json!({"contract_addr": contract_addr, "funds": funds, "err": e.to_string()}),
+                    }
+                }
+            }
+        }
+        other => json!({"not_execute": serde_json::to_value(other).unwrap()}),
+    }
+}
+
+fn remote_exec(v: &Value) -> Value {
+    let addr = Addr::unchecked(v["addr"].as_str().unwrap_or(""));
+    let funds: Vec<Value> = v["funds_steps"].as_array().cloned().unwrap_or_default();
+    let args = &v["args"];
+    let method = v["method"].as_str().unwrap_or("");
+    let s = |i: usize| args[i].as_str().unwrap_or("").to_string();
+    let n = |i: usize| args[i].as_u64().unwrap_or(0);
+    let built: Result<svfw::cw_std::WasmMsg, String> = match v["ty"].as_str().unwrap_or("contract") {
+        "contract" => {
+            use contract::sv::Executor;
+            let remote = Remote::<contract::Ctr>::new(addr);
+            let mut b = remote.executor();
+            for f in &funds {
+                b = b.with_funds(coins(f));
+            }
+            match method {
+                "bump" => b.bump(n(0) as u32, args[1].as_str().map(|x| x.to_string())).map(|r| r.build()).map_err(|e| e.to_string()),
+                "set_owner" => b.set_owner(s(0)).map(|r| r.build()).map_err(|e| e.to_string()),
+                "foo1_bar" => b.foo_1_bar(n(0), n(1)).map(|r| r.build()).map_err(|e| e.to_string()),
+                _ => Err("no such method".into()),
+            }
+        }
+        "contract_as_iface" => {
+            // interface helpers on a handle typed by the concrete contract
+            use iface::sv::Executor;
+            let remote = Remote::<contract::Ctr>::new(addr);
+            let mut b = remote.executor();
+            for f in &funds {
+                b = b.with_funds(coins(f));
+            }
+            match method {
+                "poke" => b.poke(n(0) as u32).map(|r| r.build()).map_err(|e| e.to_string()),
+                "poke2" => b.poke_2(s(0), s(1)).map(|r| r.build()).map_err(|e| e.to_string()),
+                _ => Err("no such method".into()),
+            }
+        }
+        "dyn" => {
+            use iface::sv::Executor;
+            let remote = Remote::<dyn iface::Plain<Error = StdError>>::new(addr);
+            let mut b = remote.executor();
+            for f in &funds {
+                b = b.with_funds(coins(f));
+            }
+            match method {
+                "poke" => b.poke(n(0) as u32).map(|r| r.build()).map_err(|e| e.to_string()),
+                "poke2" => b.poke_2(s(0), s(1)).map(|r| r.build()).map_err(|e| e.to_string()),
+                _ => Err("no such method".into()),
+            }
+        }
+        _ => Err("bad ty".into()),
+    };
+    match built {
+        Ok(m) => deliver(&m),
+        Err(e) => json!({"build_err": e}),
+    }
+}
+
+fn remote_query(v: &Value) -> Value {
+    use std::cell::RefCell;
+    use std::rc::Rc;
+    use svfw::cw_std::testing::{mock_dependencies, mock_env, MockQuerier};
+    use svfw::cw_std::{ContractResult, QuerierWrapper, SystemResult, WasmQuery};
+    let addr = Addr::unchecked(v["addr"].as_str().unwrap_or(""));
+    let args = &v["args"];
+    let method = v["method"].as_str().unwrap_or("");
+    let seen: Rc<RefCell<Vec<Value>>> = Rc::new(RefCell::new(vec![]));
+    let seen2 = seen.clone();
+    let mut q: MockQuerier<Empty> = MockQuerier::new(&[]);
+    q.update_wasm(move |w| match w {
+        WasmQuery::Smart { contract_addr, msg } => {
+            seen2.borrow_mut().push(json!({"contract_addr": contract_addr, "body": String::from_utf8_lossy(msg.as_slice())}));
+            let deps = mock_dependencies();
+            match svfw::cw_std::from_json::<contract::sv::ContractQueryMsg>(msg.as_slice()) {
+                Ok(m) => match contract::entry_points::query(deps.as_ref(), mock_env(), m) {
+                    Ok(b) => SystemResult::Ok(ContractResult::Ok(b)),
+                    Err(e) => SystemResult::Ok(ContractResult::Err(e.to_string())),
+                },
+                Err(e) => SystemResult::Ok(ContractResult::Err(format!("target rejects the query: {}", e))),
+            }
+        }
+        other => {
+            seen2.borrow_mut().push(json!({"other_query": format!("{:?}", other)}));
+            SystemResult::Ok(ContractResult::Err("not smart".into()))
+        }
+    });
+    let wrapper = QuerierWrapper::<Empty>::new(&q);
+    let n = |i: usize| args[i].as_u64().unwrap_or(0) as u32;
+    let res: Result<Echo, String> = match v["ty"].as_str().unwrap_or("contract") {
+        "contract" => {
+            use contract::sv::Querier;
+            let remote = Remote::<contract::Ctr>::new(addr);
+            let bq = remote.querier(&wrapper);
+            match method {
+                "value" => bq.value().map_err(|e| e.to_string()),
+                "sum" => bq.sum(n(0), n(1)).map_err(|e| e.to_string()),
+                _ => Err("no such method".into()),
+            }
+        }
+        "contract_as_iface" => {
+            use iface::sv::Querier;
+            let remote = Remote::<contract::Ctr>::new(addr);
+            let bq = remote.querier(&wrapper);
+            match method {
+                "peek" => bq.peek().map_err(|e| e.to_string()),
+                "peek_at" => bq.peek_at(n(0), args[1].as_str().unwrap_or("").to_string()).map_err(|e| e.to_string()),
+                _ => Err("no such method".into()),
+            }
+        }
+        "dyn" => {
+            use iface::sv::Querier;
+            let remote = Remote::<dyn iface::Plain<Error = StdError>>::new(addr);
+            let bq = remote.querier(&wrapper);
+            match method {
+                "peek" => bq.peek().map_err(|e| e.to_string()),
+                "peek_at" => bq.peek_at(n(0), args[1].as_str().unwrap_or("").to_string()).map_err(|e| e.to_string()),
+                _ => Err("no such method".into()),
+            }
+        }
+        "borrowed" => {
+            use contract::sv::Querier;
+            let bq = svfw::types::BoundQuerier::<_, contract::Ctr>::borrowed(&addr, &wrapper);
+            match method {
+                "value" => bq.value().map_err(|e| e.to_string()),
+                "sum" => bq.sum(n(0), n(1)).map_err(|e| e.to_string()),
+                _ => Err("no such method".into()),
+            }
+        }
+        _ => Err("bad ty".into()),
+    };
+    let seen = seen.borrow().clone();
+    match res {
+        Ok(e) => json!({"seen": seen, "ok": serde_json::to_value(&e).unwrap()}),
+        Err(e) => json!({"seen": seen, "err": e}),
     }
 }
 
@@ -189,6 +403,8 @@ fn handle(v: &Value) -> Value {
             }
         }
         "remote_ser" | "remote_de" | "remote_schema" | "remote_admin" => remote_ops(op, v),
+        "remote_exec" => remote_exec(v),
+        "remote_query" => remote_query(v),
         "executor_builder" => {
             // ExecutorBuilder state machine: new -> with_funds* -> (generated method) -> build
             use contract::sv::Executor;
